@@ -149,7 +149,8 @@ def prop(pid, components, rule, assumptions=None, level_text="", note=""):
 
 
 prop("C01",
-     lambda tier: [e1("c01", "harness/c01_forkjoin.c")],
+     lambda tier: [e1("c01", "harness/c01_forkjoin.c")] + ([binc("hookaudit", "", "python3 tools/hook_audit.py --stats {stats}", "python3 tools/hook_audit.py --stats {stats}",
+                                                            "E1 hook audit (informational: lock-set and scheduling-point coverage of shared accesses)", deadline=(400, 900))] if tier == "thorough" else []),
      "all fork-join programs of the harness grammar (<=3 created threads: single/chain/fan/mixed x 9 creation variants x return/myth_exit x join order x yield) "
      "x all schedules with <= K deviations (preemptions, steal-victim and yield-coin answers) on W workers; distinct = distinct (program, observation log, verdict)")
 
